@@ -67,7 +67,7 @@ EXTRA_NUMERIC = ["t1.iter_cap", "t1.queue_budget", "t1.node_budget", "t1.radius_
                  "perf.parallel.max_workers", "scheduler.budgets.t1_pops", "scheduler.budgets.t1_iters", "scheduler.budgets.t2_k", "scheduler.budgets.t3_ops",
                  "t4.cooldowns.EditGraph", "k_surface"]
 LADDER: List[Any] = [0, 1, 2, 3, 16, 17, 100, 1000, 4096, 65535, 65536, 10**5, 700000, 738000, 800000, 10**6 - 1, 10**6, 10**6 + 1, 10**7, 2**31 - 1, 2**31, 2**63 - 1, 2**63, 2**64,
-                     -1, -2, 0.5, 0.999999, 1.0, 1.000001, 1e-9, 1e-300, 5e-324, -1e-9, -0.0, 0.1 + 0.2, 1e6, 1e9, 1e15, 1e16, 1e18, 1e100, 1e200, 1e308, 10**400, -10**400, 2.5, "7", "0.5", " 3 ", "1e3"]
+                     -1, -2, 0.5, 0.999999, 1.0, 1.000001, 1e-9, 1e-07, 2.5e-05, 1e-300, 5e-324, -1e-9, -0.0, 0.1 + 0.2, 1e6, 1e9, 1e15, 1e16, 1e18, 1e100, 1e200, 1e308, 10**400, -10**400, 2.5, "7", "0.5", " 3 ", "1e3"]
 
 
 def _numeric_paths() -> List[List[str]]:
@@ -180,7 +180,7 @@ def generate(seed: int, tier: str) -> Dict[str, Any]:
     labelled = [n["label"] for g in world["graphs"].values() for n in g["nodes"] if n.get("label")]
     if labelled:
         texts[0] = r.choice(labelled)  # a text that certainly seeds propagation
-    return {"base": base, "mutations": muts, "world": world, "texts": texts}
+    return {"base": base, "mutations": muts, "world": world, "texts": texts, "file_format": r.choice(["yaml", "yaml", "json"]), "json_indent": r.choice([0, 2])}
 
 
 def _get(tree: Any, path: Tuple[Any, ...]) -> Any:
@@ -261,10 +261,10 @@ def _all_str_keys(obj: Any) -> bool:
     return True
 
 
-def cli_validate(text: str) -> Dict[str, Any]:
+def cli_validate(text: str, suffix: str = ".yaml") -> Dict[str, Any]:
     """Runs in a child interpreter: the validate CLI on a config file."""
     import clematis.scripts.validate as cli
-    fd, path = tempfile.mkstemp(suffix=".yaml", dir="/dev/shm" if os.path.isdir("/dev/shm") else None)
+    fd, path = tempfile.mkstemp(suffix=suffix, dir="/dev/shm" if os.path.isdir("/dev/shm") else None)
     try:
         with os.fdopen(fd, "w", encoding="utf-8") as fh:
             fh.write(text)
@@ -432,9 +432,23 @@ def execute(p: Dict[str, Any]) -> Dict[str, Any]:
         return {"violations": viol, "stats": stats, "faults": {}, "nontrivial": True, "key": E.jdigest(p["deep"]), "sim_s": 0.0, "log": E.jdigest(viol)}
     tree_mem = build(p)
     text: Optional[str]
+    as_json = False
     try:
-        text = yaml.safe_dump(tree_mem, sort_keys=False, allow_unicode=True)
-        tree = yaml.safe_load(text)
+        if p.get("file_format") == "json":
+            # the configuration kept as a JSON document (what json.dumps writes, small floats in exponent form included): the API
+            # sees what json.loads reads, the CLI is given the .json file
+            text = json.dumps(tree_mem, ensure_ascii=False, indent=int(p.get("json_indent", 0)) or None)
+            tree = json.loads(text)
+            as_json = True
+            stats["json_documents"] = 1
+        else:
+            raise TypeError("yaml")
+    except Exception:
+        text = None
+    try:
+        if text is None:
+            text = yaml.safe_dump(tree_mem, sort_keys=False, allow_unicode=True)
+            tree = yaml.safe_load(text)
     except Exception:
         # no YAML text exists for this mapping (e.g. an integer beyond the int<->str digit limit): the in-memory API variants
         # are still in the quantifier ("JSON/YAML-shaped input"), only the CLI comparison is skipped
@@ -521,7 +535,7 @@ def execute(p: Dict[str, Any]) -> Dict[str, Any]:
     faults: Dict[str, int] = {}
     for ch in (_CHILDREN if text is not None else []):
         try:
-            res = ch.call("checks.c14", "cli_validate", {"text": text})
+            res = ch.call("checks.c14", "cli_validate", {"text": text, "suffix": ".json" if as_json else ".yaml"})
         except ChildError as e:
             raise RuntimeError("child failed: %s" % str(e)[-800:])
         fresh = bool(res.pop("_fresh_interpreter", False))
